@@ -1,5 +1,7 @@
 import BbRe.Model.Outputs
 import BbRe.Lemmas.OutputsPath
+import BbRe.Lemmas.OutputsListing
+import BbRe.Lemmas.OutputsTree
 /-!
 # C10 — reported outputs are exactly what the action produced
 
@@ -11,6 +13,20 @@ Property theorems about `Model/Outputs.lean`, the transcription of
 * `evalComps loc comps` — apply components to a location inside the input root:
   `""` and `.` stay, `..` removes the last name and is undefined at the root,
   anything else is appended;
+* `walkN loc root` — what `lstat` finds at location `loc` below `root` (symlinks are not
+  followed; `none` = missing or a parent is not a directory); `locate wd root s` — the same
+  for the declared string `s` resolved against the working directory `wd`;
+* `atLoc env up s found` — the entries one declared string `s` must contribute, given what
+  was found at its location (a regular file: one `OutputFile` with the file's content id and
+  executable bit, unless the CAS write fails; a symlink: one `OutputSymlink` with the
+  normalised target; a directory: one `OutputDirectory` with the Tree of that directory,
+  unless a CAS write fails; a special file: an error; nothing: nothing);
+* `parentBlocked wd root s` — a parent location of `s` exists but is not a directory;
+* `encodeDir env d` — the `Directory` message of directory `d` as a pure function (children are
+  referenced by their own message = their digest); `m.kids` — the digests a message references;
+  `fileOf` / `dirOf` / `symlinkOf` — the `FileNode` / `DirectoryNode` / `SymlinkNode` of one
+  directory entry; `cleanDir env d` — no unreadable directory and no file whose CAS write fails
+  anywhere below `d`.
 -/
 namespace BbRe.Properties.C10
 open BbRe.Outputs BbRe.Lemmas.Outputs
@@ -80,5 +96,283 @@ theorem rejected_or_all_inside (w : Str) (ps : List Str) (up : Bool) :
   cases hw : resolveRel [] w with
   | error e => simp
   | ok wd => simp [registerAll_ok_iff]
+
+/-! ## exact_listing -/
+
+/-- **Exact listing** (for every CAS fault predicate `env`, hence in particular fault free).
+For a hierarchy built from working directory `w` and output paths `ps`, the `ActionResult`
+produced by `UploadOutputs` on any directory tree is, up to order, the concatenation over the
+*declared strings* of what each string alone must contribute (`atLoc` of what lstat finds at
+its normalised location): duplicates and aliases each get their own entry under their own
+string, missing locations contribute nothing; and no error is saved iff no declared location
+is special / fails to upload and no parent location is a non-directory. -/
+theorem exact_listing (env : Env) (force : Bool) (w : Str) (ps : List Str) (up : Bool) (hy : Hierarchy)
+    (r : Bool) (es : Entries) (hh : newHierarchy w ps up = .ok hy) :
+    ∃ wd, resolveRel [] w = .ok wd ∧
+      (hy.uploadOutputs env force (.dir r es)).files.Perm
+        (ps.flatMap fun s => (atLoc env (up || force) s (locate wd (.dir r es) s)).files) ∧
+      (hy.uploadOutputs env force (.dir r es)).dirs.Perm
+        (ps.flatMap fun s => (atLoc env (up || force) s (locate wd (.dir r es) s)).dirs) ∧
+      (hy.uploadOutputs env force (.dir r es)).symlinks.Perm
+        (ps.flatMap fun s => (atLoc env (up || force) s (locate wd (.dir r es) s)).symlinks) ∧
+      ((hy.uploadOutputs env force (.dir r es)).errs = [] ↔
+        ∀ s ∈ ps, parentBlocked wd (.dir r es) s = false ∧
+          (atLoc env (up || force) s (locate wd (.dir r es) s)).errs = []) := by
+  unfold newHierarchy at hh
+  cases hw : resolveRel [] w with
+  | error e => simp [hw] at hh
+  | ok wd =>
+    simp only [hw] at hh
+    refine ⟨wd, rfl, ?_⟩
+    obtain ⟨_, ha⟩ := uploadOutputs_registerAll env force wd _ hy ps r es hh
+    rw [emptyHierarchy_upload] at ha
+    have hf := ha.files
+    have hd := ha.dirs
+    have hs := ha.symlinks
+    have he := ha.errs
+    simp only [List.nil_append,
+      true_and, sumRes_files, sumRes_dirs, sumRes_symlinks, sumRes_errs_nil, List.flatMap_map,
+      List.mem_map, forall_exists_index, and_imp, forall_apply_eq_imp_iff₂] at hf hd hs he
+    refine ⟨?_, ?_, ?_, ?_⟩
+    · refine hf.trans (List.Perm.of_eq ?_)
+      exact flatMap_congr' _ _ _ (fun s _ => (specOne_lists env _ wd r es s).1)
+    · refine hd.trans (List.Perm.of_eq ?_)
+      exact flatMap_congr' _ _ _ (fun s _ => (specOne_lists env _ wd r es s).2.1)
+    · refine hs.trans (List.Perm.of_eq ?_)
+      exact flatMap_congr' _ _ _ (fun s _ => (specOne_lists env _ wd r es s).2.2.1)
+    · rw [he]
+      exact forall_congr' fun s => imp_congr_right fun _ => (specOne_lists env _ wd r es s).2.2.2
+
+/-- The CAS never fails. -/
+def noFaults : Env := ⟨fun _ => false⟩
+
+/-- An `OutputFile` with path string `s` is listed iff `s` is a declared path whose normalised
+location is a regular file with that content id and executable bit (and the CAS accepted it). -/
+theorem listed_file_iff (env : Env) (force : Bool) (w : Str) (ps : List Str) (up : Bool) (hy : Hierarchy)
+    (r : Bool) (es : Entries) (hh : newHierarchy w ps up = .ok hy) (s : Str) (c : Nat) (x : Bool) :
+    ∃ wd, resolveRel [] w = .ok wd ∧
+      ((s, c, x) ∈ (hy.uploadOutputs env force (.dir r es)).files ↔
+        s ∈ ps ∧ locate wd (.dir r es) s = some (.file x c) ∧ env.putFails (.file c) = false) := by
+  obtain ⟨wd, hw, hf, -, -, -⟩ := exact_listing env force w ps up hy r es hh
+  refine ⟨wd, hw, ?_⟩
+  rw [hf.mem_iff, List.mem_flatMap]
+  constructor
+  · rintro ⟨s', hs', hm⟩
+    rw [atLoc_files] at hm
+    split at hm
+    · rename_i x' c' hloc
+      split at hm
+      · simp at hm
+      · rename_i hput
+        simp only [List.mem_singleton, Prod.mk.injEq] at hm
+        obtain ⟨rfl, rfl, rfl⟩ := hm
+        exact ⟨hs', hloc, by simpa using hput⟩
+    · simp at hm
+  · rintro ⟨hs, hloc, hput⟩
+    exact ⟨s, hs, by rw [atLoc_files, hloc]; simp [hput]⟩
+
+/-- Duplicates: a declared string whose location is an (uploadable) regular file is listed exactly
+as many times as it was declared. -/
+theorem listed_file_count (env : Env) (force : Bool) (w : Str) (ps : List Str) (up : Bool) (hy : Hierarchy)
+    (r : Bool) (es : Entries) (hh : newHierarchy w ps up = .ok hy) (s : Str) (c : Nat) (x : Bool) :
+    ∃ wd, resolveRel [] w = .ok wd ∧
+      (locate wd (.dir r es) s = some (.file x c) → env.putFails (.file c) = false →
+        (hy.uploadOutputs env force (.dir r es)).files.count (s, c, x) = ps.count s) := by
+  obtain ⟨wd, hw, hf, -, -, -⟩ := exact_listing env force w ps up hy r es hh
+  refine ⟨wd, hw, fun hloc hput => ?_⟩
+  rw [hf.count_eq]
+  refine count_flatMap_single ps
+    (fun s => (atLoc env (up || force) s (locate wd (.dir r es) s)).files) s (s, c, x)
+    (by simp only [atLoc_files, hloc]; simp [hput]) ?_
+  intro s' _ hne hm
+  rw [atLoc_files] at hm
+  split at hm
+  · split at hm
+    · simp at hm
+    · simp only [List.mem_singleton, Prod.mk.injEq] at hm
+      exact hne hm.1.symm
+  · simp at hm
+
+/-- An `OutputSymlink` with path string `s` is listed iff `s` is a declared path whose normalised
+location is a symlink; the reported target is the link's (normalised) target. -/
+theorem listed_symlink_iff (env : Env) (force : Bool) (w : Str) (ps : List Str) (up : Bool) (hy : Hierarchy)
+    (r : Bool) (es : Entries) (hh : newHierarchy w ps up = .ok hy) (s t' : Str) :
+    ∃ wd, resolveRel [] w = .ok wd ∧
+      ((s, t') ∈ (hy.uploadOutputs env force (.dir r es)).symlinks ↔
+        s ∈ ps ∧ ∃ t, locate wd (.dir r es) s = some (.symlink t) ∧ t' = normTarget t) := by
+  obtain ⟨wd, hw, -, -, hs, -⟩ := exact_listing env force w ps up hy r es hh
+  refine ⟨wd, hw, ?_⟩
+  rw [hs.mem_iff, List.mem_flatMap]
+  constructor
+  · rintro ⟨s', hs', hm⟩
+    rw [atLoc_symlinks] at hm
+    split at hm
+    · rename_i t hloc
+      simp only [List.mem_singleton, Prod.mk.injEq] at hm
+      obtain ⟨rfl, rfl⟩ := hm
+      exact ⟨hs', t, hloc, rfl⟩
+    · simp at hm
+  · rintro ⟨hs, t, hloc, rfl⟩
+    exact ⟨s, hs, by rw [atLoc_symlinks, hloc]; simp⟩
+
+/-- An `OutputDirectory` with path string `s` is listed iff `s` is a declared path whose normalised
+location is a directory `d`, and the entry is the one `uploadOutputDirectoryEntered` produces for
+`d` (its Tree is described by `tree_wellformed` below). -/
+theorem listed_dir_iff (env : Env) (force : Bool) (w : Str) (ps : List Str) (up : Bool) (hy : Hierarchy)
+    (r : Bool) (es : Entries) (hh : newHierarchy w ps up = .ok hy)
+    (e : Str × List DirMsg × Option DirMsg) :
+    ∃ wd, resolveRel [] w = .ok wd ∧
+      (e ∈ (hy.uploadOutputs env force (.dir r es)).dirs ↔
+        e.1 ∈ ps ∧ ∃ r' es', locate wd (.dir r es) e.1 = some (.dir r' es') ∧
+          e ∈ (uploadOutputDirectoryEntered env (up || force) (.dir r' es') [e.1]).dirs) := by
+  obtain ⟨wd, hw, -, hd, -, -⟩ := exact_listing env force w ps up hy r es hh
+  refine ⟨wd, hw, ?_⟩
+  rw [hd.mem_iff, List.mem_flatMap]
+  constructor
+  · rintro ⟨s', hs', hm⟩
+    rw [atLoc_dirs] at hm
+    split at hm
+    · rename_i r' es' hloc
+      have := uode_dirs_path env _ _ _ e hm
+      simp only [List.mem_singleton] at this
+      subst this
+      exact ⟨hs', r', es', hloc, hm⟩
+    · simp at hm
+  · rintro ⟨hs, r', es', hloc, hm⟩
+    exact ⟨e.1, hs, by rw [atLoc_dirs, hloc]; exact hm⟩
+
+/-- A declared path whose location is missing (or lies below a non-directory) is listed nowhere. -/
+theorem missing_lists_nothing (env : Env) (force : Bool) (w : Str) (ps : List Str) (up : Bool) (hy : Hierarchy)
+    (r : Bool) (es : Entries) (hh : newHierarchy w ps up = .ok hy) (s : Str) :
+    ∃ wd, resolveRel [] w = .ok wd ∧
+      (locate wd (.dir r es) s = none →
+        (∀ e ∈ (hy.uploadOutputs env force (.dir r es)).files, e.1 ≠ s) ∧
+        (∀ e ∈ (hy.uploadOutputs env force (.dir r es)).symlinks, e.1 ≠ s) ∧
+        (∀ e ∈ (hy.uploadOutputs env force (.dir r es)).dirs, e.1 ≠ s)) := by
+  obtain ⟨wd, hw⟩ := (rejected_or_all_inside w ps up).1 ⟨hy, hh⟩
+  refine ⟨wd, hw.1, fun hnone => ⟨?_, ?_, ?_⟩⟩
+  · rintro ⟨s', c, x⟩ he rfl
+    obtain ⟨wd', hw', h⟩ := listed_file_iff env force w ps up hy r es hh s' c x
+    have : wd' = wd := by rw [hw.1] at hw'; exact (Except.ok.inj hw').symm
+    subst this
+    simp [hnone] at h
+    exact h he
+  · rintro ⟨s', t⟩ he rfl
+    obtain ⟨wd', hw', h⟩ := listed_symlink_iff env force w ps up hy r es hh s' t
+    have : wd' = wd := by rw [hw.1] at hw'; exact (Except.ok.inj hw').symm
+    subst this
+    simp [hnone] at h
+    exact h he
+  · rintro e he rfl
+    obtain ⟨wd', hw', h⟩ := listed_dir_iff env force w ps up hy r es hh e
+    have : wd' = wd := by rw [hw.1] at hw'; exact (Except.ok.inj hw').symm
+    subst this
+    simp [hnone] at h
+    exact h he
+
+/-- A special file (FIFO, socket, device) at a declared location is an error, never an entry. -/
+theorem special_is_error (env : Env) (force : Bool) (w : Str) (ps : List Str) (up : Bool) (hy : Hierarchy)
+    (r : Bool) (es : Entries) (hh : newHierarchy w ps up = .ok hy) (s : Str) (hs : s ∈ ps) :
+    ∃ wd, resolveRel [] w = .ok wd ∧
+      (locate wd (.dir r es) s = some .special →
+        (hy.uploadOutputs env force (.dir r es)).errs ≠ []) := by
+  obtain ⟨wd, hw, -, -, -, he⟩ := exact_listing env force w ps up hy r es hh
+  refine ⟨wd, hw, fun hloc hnil => ?_⟩
+  have := (he.1 hnil s hs).2
+  rw [hloc] at this
+  simp [atLoc] at this
+
+/-! ## tree_wellformed -/
+
+/-- **Well-formed Tree.**  Every `OutputDirectory` entry produced for a directory `d` (any tree:
+any depth, width, repeated identical subdirectories; any CAS fault predicate) carries a Tree
+`root :: children` such that: `root` is the message of `d`; no directory occurs twice
+(identical subdirectories appear once); every digest referenced by a listed directory occurs
+in the list - exactly once - and strictly *after* the directory referencing it (parents before
+children, as `is_topologically_sorted` announces); the root digest is reported iff Directory
+messages were requested; and the Tree (and, if requested, every Directory) was stored. -/
+theorem tree_wellformed (env : Env) (up : Bool) (d : Node) (ps : List Str)
+    (e : Str × List DirMsg × Option DirMsg)
+    (h : e ∈ (uploadOutputDirectoryEntered env up d ps).dirs) :
+    ∃ root children, e.2.1 = root :: children ∧ encodeDir env d = some root ∧
+      e.2.1.Nodup ∧
+      (∀ a m b, e.2.1 = a ++ m :: b → ∀ k ∈ m.kids, k ∈ b) ∧
+      (∀ m ∈ e.2.1, ∀ k ∈ m.kids, e.2.1.count k = 1) ∧
+      e.2.2 = (if up then some root else none) ∧
+      env.putFails (.tree e.2.1) = false ∧
+      (up = true → ∀ m ∈ e.2.1, env.putFails (.dirmsg m) = false) := by
+  unfold uploadOutputDirectoryEntered at h
+  cases hu : d.uploadDirectory env {} with
+  | mk ro st =>
+    rw [hu] at h
+    cases ro with
+    | none => simp at h
+    | some root =>
+      obtain ⟨henc, ⟨rest, hrev⟩, hnd, htopo, -⟩ := fresh_upload env d root st hu
+      simp only at h
+      split at h
+      · rename_i hok
+        simp only [List.mem_map] at h
+        obtain ⟨p, -, rfl⟩ := h
+        simp only [Bool.and_eq_true, Bool.not_eq_eq_eq_not, Bool.not_true, Bool.or_eq_true,
+          List.all_eq_true] at hok
+        have hnd' : st.dirs.reverse.Nodup := nodup_reverse' hnd
+        have hafter : ∀ a m b, st.dirs.reverse = a ++ m :: b → ∀ k ∈ m.kids, k ∈ b := by
+          intro a m b hsplit k hk
+          have : st.dirs = b.reverse ++ m :: a.reverse := by
+            have := congrArg List.reverse hsplit
+            simpa using this
+          have := htopo _ m _ this k hk
+          simpa using this
+        refine ⟨root, rest, hrev, henc, hnd', hafter, ?_, rfl, hok.1, ?_⟩
+        · intro m hm k hk
+          have hm' : m ∈ st.dirs.reverse := hm
+          obtain ⟨a, b, hsplit⟩ := List.append_of_mem hm'
+          have hkb := hafter a m b hsplit k hk
+          have hkin : k ∈ st.dirs.reverse := by rw [hsplit]; simp [hkb]
+          show st.dirs.reverse.count k = 1
+          rw [hnd'.count]
+          simp [hkin]
+        · intro hup m hm
+          rcases hok.2 with h1 | h2
+          · simp [hup] at h1
+          · exact h2 m (by simpa using hm)
+      · simp at h
+
+/-- **The root (and, recursively, every child) describes the directory exactly**: its `files`,
+`directories` and `symlinks` are the directory's regular files (content id, executable bit),
+subdirectories (referenced by the digest of *their* message) and symlinks (normalised target), in
+`ReadDir` order; special files are left out (REv2 cannot express them).  With a fault-free CAS
+(`fileOf noFaults`) no file is missing. -/
+theorem tree_root_exact (env : Env) (es : Entries) (m : DirMsg)
+    (h : encodeDir env (.dir true es) = some m) :
+    m.files = es.filterMap (fileOf env) ∧ m.dirs = es.filterMap (dirOf env) ∧
+      m.symlinks = es.filterMap symlinkOf := by
+  rw [encodeDir] at h
+  simp only [↓reduceIte, Option.some.injEq] at h
+  subst h
+  simpa [DirMsg.files, DirMsg.dirs, DirMsg.symlinks] using encodeEntries_lists env es (.mk [] [] [])
+
+example : fileOf noFaults ([97], .file true 5) = some ([97], 5, true) := rfl
+example : dirOf noFaults ([97], .dir true [([98], .special)]) = some ([97], .mk [] [] []) := rfl
+
+/-- An output directory is listed (once per declared string) whenever its Tree could be stored. -/
+theorem directory_listed (env : Env) (up : Bool) (r : Bool) (es : Entries) (s : Str) (root : DirMsg)
+    (st : UpState) (hu : (Node.dir r es).uploadDirectory env {} = (some root, st))
+    (htree : env.putFails (.tree st.dirs.reverse) = false)
+    (hdirs : up = true → ∀ m ∈ st.dirs, env.putFails (.dirmsg m) = false) :
+    (uploadOutputDirectoryEntered env up (.dir r es) [s]).dirs =
+      [(s, st.dirs.reverse, if up then some root else none)] := by
+  unfold uploadOutputDirectoryEntered
+  rw [hu]
+  simp only [htree, Bool.not_false, Bool.true_and, List.map_cons, List.map_nil]
+  split
+  · rfl
+  · rename_i hno
+    exfalso
+    apply hno
+    cases up with
+    | false => simp
+    | true => simpa using hdirs rfl
 
 end BbRe.Properties.C10
